@@ -16,13 +16,13 @@ Local Open Scope Z_scope.
 Definition dl_scripts : list (list (nat * cop)) := [[(0%nat, CStart 0%nat 1 0%nat); (1%nat, CStart 1%nat 2 0%nat); (2%nat, CStart 2%nat 3 0%nat); (3%nat, CJoin 0%nat); (4%nat, CJoin 1%nat); (5%nat, CJoin 2%nat); (6%nat, CStart 0%nat 4 0%nat); (7%nat, CJoin 0%nat); (8%nat, CStart 1%nat 5 0%nat); (9%nat, CJoin 1%nat); (10%nat, CJoin 0%nat); (11%nat, CJoin 1%nat); (12%nat, CJoin 2%nat)]].
 
 Definition dl_cfg (fixed : bool) : config :=
-  mkConfig 4 0 3 false 3 dl_scripts (fun a => 7 * a + 3) fixed.
+  mkConfig 4 0 3 false 3 dl_scripts (fun a => 7 * a + 3) fixed true false.
 
 Definition dl_sched : list move := [(0%nat, false); (0%nat, false); (0%nat, false); (0%nat, false); (0%nat, false); (0%nat, false); (0%nat, false); (0%nat, false); (0%nat, false); (0%nat, false); (0%nat, false); (0%nat, false); (0%nat, false); (0%nat, false); (0%nat, false); (0%nat, false); (0%nat, false); (0%nat, false); (0%nat, false); (0%nat, false); (0%nat, false); (0%nat, false); (0%nat, false); (0%nat, false); (0%nat, false); (0%nat, false); (0%nat, false); (0%nat, false); (0%nat, false); (0%nat, false); (0%nat, false); (0%nat, false); (0%nat, false); (0%nat, false); (0%nat, false); (0%nat, false); (0%nat, false); (0%nat, false); (0%nat, false); (0%nat, false); (0%nat, false); (0%nat, false); (0%nat, false); (0%nat, false); (0%nat, false); (0%nat, false); (0%nat, false); (1%nat, false); (1%nat, false); (1%nat, false); (1%nat, false); (1%nat, false); (1%nat, false); (1%nat, false); (1%nat, false); (1%nat, false); (1%nat, false); (1%nat, false); (1%nat, false); (0%nat, false); (0%nat, false); (0%nat, false); (1%nat, false); (1%nat, false); (1%nat, false); (1%nat, false); (1%nat, false); (1%nat, false); (1%nat, false); (1%nat, false); (1%nat, false); (1%nat, false); (1%nat, false); (1%nat, false); (0%nat, false); (0%nat, false); (0%nat, false); (1%nat, false); (1%nat, false); (1%nat, false); (1%nat, false); (1%nat, false); (1%nat, false); (1%nat, false); (1%nat, false); (1%nat, false); (1%nat, false); (1%nat, false); (1%nat, false); (0%nat, false); (0%nat, false); (1%nat, false); (1%nat, false); (1%nat, false); (1%nat, false); (1%nat, false); (1%nat, false); (1%nat, false); (1%nat, false); (2%nat, false); (2%nat, false); (2%nat, false); (2%nat, false); (2%nat, false); (2%nat, false); (3%nat, false); (3%nat, false); (3%nat, false); (3%nat, false); (3%nat, false); (3%nat, false); (0%nat, false); (0%nat, false); (0%nat, false); (0%nat, false); (0%nat, false); (0%nat, false); (0%nat, false); (0%nat, false); (0%nat, false); (0%nat, false); (0%nat, false); (0%nat, true); (0%nat, false); (0%nat, false); (0%nat, false); (0%nat, false); (0%nat, false); (0%nat, false); (1%nat, false); (1%nat, false); (1%nat, false); (1%nat, false); (1%nat, false); (1%nat, false); (1%nat, false); (1%nat, false); (1%nat, false); (1%nat, false); (1%nat, false); (1%nat, false); (1%nat, false); (1%nat, false); (1%nat, false); (0%nat, false); (0%nat, false); (0%nat, false); (0%nat, false); (0%nat, false); (0%nat, false); (0%nat, false); (0%nat, false); (0%nat, false); (0%nat, false); (0%nat, false); (0%nat, false); (0%nat, false); (0%nat, false); (0%nat, false); (0%nat, false); (0%nat, false); (0%nat, false); (1%nat, false); (1%nat, false); (1%nat, false); (1%nat, false); (1%nat, false); (1%nat, false); (1%nat, false); (1%nat, false)].
 
 Lemma dl_wf fixed : wf_cfg (dl_cfg fixed) (fun _ => 0%nat).
 Proof.
-  split; [reflexivity|]. intros c f (i & op & Hin & Hop).
+  split; [reflexivity|]. split; [|reflexivity]. intros c f (i & op & Hin & Hop).
   destruct c as [|c].
   - cbn in Hin |- *.
     repeat (destruct Hin as [E|Hin]; [inversion E; subst; cbn in Hop; inversion Hop; split; [lia|reflexivity]|]).
